@@ -362,7 +362,7 @@ def decide(prop, tier, seed, work, evid_path, a, t_start):
             tag = re.sub(r'[^A-Za-z0-9]+', '_', '%s_%s_%s' % (hb.name, e['name'], p['name']))[-80:]
             os.makedirs(rdir, exist_ok=True)
             is_model_check = not ('assertion' in (p['name'] or ''))
-            if hb.spec.get('scale'):
+            if hb.spec.get('scale') or hb.spec.get('replay') == 'twin':
                 status, failed, detail = twin_replay(hb, cf_use, e['name'], inputs, os.path.join(work, 'replay'), tag)
             else:
                 status, failed, detail = native_replay(hb, ll_use, e['name'], inputs, os.path.join(work, 'replay'), tag)
